@@ -26,6 +26,7 @@ CHECK = {'level': 'model_checking',
            {'name': 'raft',
             'pkg': './internal/physical/raft',
             'run': '^TestVerifC08Raft$',
+            'stmtpoints': {'internal/physical/raft/transaction.go': 'newTransaction,trackTransaction'},
             'env': {'BAO_RAFT_INITIAL_MMAP_SIZE': '4194304'},
             'ulimit_kb': 67108864,
             'shards': {'quick': 16, 'thorough': 16},
